@@ -107,16 +107,20 @@ ANSI_BOLD = '\x1b[1;32m'
 _ANSI_KNOWN = (ANSI_RED, ANSI_RESET, ANSI_BOLD)
 
 
+ANSI_RED8 = '\x9b31m'        # the same colour sequences with the 8-bit CSI introducer instead of ESC [
+ANSI_RESET8 = '\x9b0m'
+
+
 def strip_colour(t):
-    """remove well formed SGR colour sequences  ESC [ digits-and-semicolons m  (scanner, no regex)"""
-    if '\x1b' not in t:
+    """remove well formed SGR colour sequences  (ESC [ | CSI) digits-and-semicolons m  (scanner, no regex)"""
+    if '\x1b' not in t and '\x9b' not in t:
         return t
     out = []
     i = 0
     n = len(t)
     while i < n:
-        if t[i] == '\x1b' and i + 1 < n and t[i + 1] == '[':
-            j = i + 2
+        if t[i] == '\x9b' or (t[i] == '\x1b' and i + 1 < n and t[i + 1] == '['):
+            j = i + (1 if t[i] == '\x9b' else 2)
             while j < n and (t[j].isdigit() or t[j] == ';'):
                 j += 1
             if j < n and t[j] == 'm':
@@ -133,8 +137,8 @@ def colour_spans(t):
     i = 0
     n = len(t)
     while i < n:
-        if t[i] == '\x1b' and i + 1 < n and t[i + 1] == '[':
-            j = i + 2
+        if t[i] == '\x9b' or (t[i] == '\x1b' and i + 1 < n and t[i + 1] == '['):
+            j = i + (1 if t[i] == '\x9b' else 2)
             while j < n and (t[j].isdigit() or t[j] == ';'):
                 j += 1
             if j < n and t[j] == 'm':
@@ -245,7 +249,7 @@ def in_reference_domain(got, want):
         return False
     g = strip_colour(got)
     w = strip_colour(want)
-    if '\x1b' in g or '\x1b' in w:
+    if '\x1b' in g or '\x1b' in w or '\x9b' in g or '\x9b' in w:
         return False        # malformed escape sequences: undocumented
     if MARK in g:
         return False
